@@ -409,4 +409,126 @@ theorem bytesPoly_append_singleton (w : Bytes) (b : UInt8) :
     bytesPoly (w ++ [b]) = bytesPoly w <<< 8 ^^^ b.toNat := by
   simp [bytesPoly, List.foldl_append, mul_256_add_eq_xor]
 
+/-! ## Part 4: the tables and one `slide` step -/
+
+/-- Split a number at bit `d`. -/
+theorem split_at (x d : Nat) : x = (x >>> d) <<< d ^^^ x % 2 ^ d := by
+  apply Nat.eq_of_testBit_eq
+  intro i
+  rw [Nat.testBit_xor, Nat.testBit_shiftLeft, Nat.testBit_shiftRight, Nat.testBit_mod_two_pow]
+  by_cases h : i < d
+  · have : ¬ i ≥ d := by omega
+    simp [h, this]
+  · have h' : i ≥ d := by omega
+    have e : d + (i - d) = i := by omega
+    simp [h, h', e]
+
+section
+variable {poly : UInt64} (hp : poly ≠ 0) (hd : poly.toNat.log2 ≤ 56)
+include hp hd
+
+theorem degree_poly : degree poly = (poly.toNat.log2 : Int) := by
+  have hp' : poly.toNat ≠ 0 := fun h' => hp ((toNat_eq_zero_iff poly).mp h')
+  rw [degree_eq]; simp [pdeg, hp']
+
+/-- **F4.** `outT[v]` is the reduced representative of `v · x^(8·(ws-1))`. -/
+theorem outEntry_spec (ws v : Nat) (hv : v < 2 ^ 64) :
+    (outEntry ws poly v).toNat < 2 ^ poly.toNat.log2 ∧
+    Cong poly.toNat (outEntry ws poly v).toNat (v <<< (8 * (ws - 1))) := by
+  unfold outEntry
+  generalize ws - 1 = n
+  induction n with
+  | zero =>
+    simp only [List.range_zero, List.foldl_nil]
+    refine ⟨modulo_lt hp _, ?_⟩
+    have : v.toUInt64.toNat = v := by
+      rw [Nat.toUInt64_eq, UInt64.toNat_ofNat', Nat.mod_eq_of_lt hv]
+    simpa [this] using modulo_cong hp v.toUInt64
+  | succ n ih =>
+    rw [List.range_succ, List.foldl_append]
+    simp only [List.foldl_cons, List.foldl_nil]
+    refine ⟨modulo_lt hp _, (modulo_cong hp _).trans ?_⟩
+    rw [shl8_toNat hd ih.1]
+    have e : 8 * (n + 1) = 8 * n + 8 := by omega
+    rw [e, Nat.shiftLeft_add]
+    exact ih.2.shiftLeft 8
+
+/-- `modT[t] = (t·x^d) + ((t·x^d) mod poly)` for a byte `t`. -/
+theorem modEntry_toNat (t : Nat) (ht : t < 256) :
+    ∃ r : Nat, r < 2 ^ poly.toNat.log2 ∧ Cong poly.toNat r (t <<< poly.toNat.log2) ∧
+      (modEntry poly t).toNat = t <<< poly.toNat.log2 ^^^ r := by
+  have ht' : t < 2 ^ 8 := ht
+  have hk : ((degree poly).toNat.toUInt64).toNat % 64 = poly.toNat.log2 := by
+    rw [degree_poly hp hd, Nat.toUInt64_eq, UInt64.toNat_ofNat']
+    simp only [Int.toNat_natCast]; omega
+  have htn : t.toUInt64.toNat = t := by
+    rw [Nat.toUInt64_eq, UInt64.toNat_ofNat']; omega
+  have hP : (t.toUInt64 <<< (degree poly).toNat.toUInt64).toNat = t <<< poly.toNat.log2 := by
+    rw [UInt64.toNat_shiftLeft, hk, htn, Nat.mod_eq_of_lt]
+    exact Nat.lt_of_lt_of_le (shiftLeft_lt_two_pow ht') (Nat.pow_le_pow_right (by omega) (by omega))
+  refine ⟨(modulo (t.toUInt64 <<< (degree poly).toNat.toUInt64) poly).toNat, modulo_lt hp _, ?_, ?_⟩
+  · have := modulo_cong hp (t.toUInt64 <<< (degree poly).toNat.toUInt64)
+    rwa [hP] at this
+  · unfold modEntry
+    simp only [UInt64.toNat_or, hP]
+    rw [Nat.or_comm, shiftLeft_or_eq_xor _ (modulo_lt hp _)]
+
+/-- **F3.** For a reduced `h`, the table-driven update equals shift-in-and-reduce. -/
+theorem slide_step (hlo : 8 ≤ poly.toNat.log2) {h : UInt64} (hh : h.toNat < 2 ^ poly.toNat.log2)
+    (b : UInt8) :
+    ((h <<< 8) ||| b.toUInt64) ^^^
+        (Tables.mk' 6 poly).modT.getD ((h >>> (Tables.mk' 6 poly).shift) &&& 255).toNat 0
+      = modulo ((h <<< 8) ||| b.toUInt64) poly := by
+  have hb : b.toNat < 2 ^ 8 := b.toNat_lt
+  -- the table index is the top byte of `h·x⁸ + b`
+  have hshift : (Tables.mk' 6 poly).shift.toNat % 64 = poly.toNat.log2 - 8 := by
+    show (((degree poly) - 8).toNat.toUInt64).toNat % 64 = _
+    rw [degree_poly hp hd, Nat.toUInt64_eq, UInt64.toNat_ofNat']
+    omega
+  have hT : h.toNat >>> (poly.toNat.log2 - 8) < 2 ^ 8 := by
+    rw [Nat.shiftRight_eq_div_pow, Nat.div_lt_iff_lt_mul (Nat.two_pow_pos _), ← Nat.pow_add]
+    have : 8 + (poly.toNat.log2 - 8) = poly.toNat.log2 := by omega
+    rwa [this]
+  have hmi : ((h >>> (Tables.mk' 6 poly).shift) &&& 255).toNat = h.toNat >>> (poly.toNat.log2 - 8) := by
+    rw [UInt64.toNat_and, UInt64.toNat_shiftRight, hshift]
+    have : (255 : UInt64).toNat = 2 ^ 8 - 1 := by decide
+    rw [this, Nat.and_two_pow_sub_one_eq_mod, Nat.mod_eq_of_lt hT]
+  have hget : (Tables.mk' 6 poly).modT.getD (h.toNat >>> (poly.toNat.log2 - 8)) 0
+      = modEntry poly (h.toNat >>> (poly.toNat.log2 - 8)) := by
+    have : h.toNat >>> (poly.toNat.log2 - 8) < 256 := hT
+    simp [Tables.mk', Array.getD_eq_getD_getElem?, this]
+  rw [hmi, hget]
+  obtain ⟨r, hr, hrc, hre⟩ := modEntry_toNat hp hd _ hT
+  -- top byte of X
+  have hX := push_toNat hd hh b
+  have htop : (h.toNat <<< 8 ^^^ b.toNat) >>> poly.toNat.log2 = h.toNat >>> (poly.toNat.log2 - 8) := by
+    apply Nat.eq_of_testBit_eq
+    intro i
+    rw [Nat.testBit_shiftRight, Nat.testBit_shiftRight, Nat.testBit_xor, Nat.testBit_shiftLeft]
+    have h1 : b.toNat.testBit (poly.toNat.log2 + i) = false :=
+      Nat.testBit_lt_two_pow (Nat.lt_of_lt_of_le hb (Nat.pow_le_pow_right (by omega) (by omega)))
+    have h2 : poly.toNat.log2 + i ≥ 8 := by omega
+    have h3 : poly.toNat.log2 + i - 8 = poly.toNat.log2 - 8 + i := by omega
+    simp [h1, h2, h3]
+  have hsplit := split_at (h.toNat <<< 8 ^^^ b.toNat) poly.toNat.log2
+  rw [htop] at hsplit
+  have hlo' : (h.toNat <<< 8 ^^^ b.toNat) % 2 ^ poly.toNat.log2 < 2 ^ poly.toNat.log2 :=
+    Nat.mod_lt _ (Nat.two_pow_pos _)
+  -- the result is reduced and congruent to X
+  have hval : (((h <<< 8) ||| b.toUInt64) ^^^
+      modEntry poly (h.toNat >>> (poly.toNat.log2 - 8))).toNat
+      = (h.toNat <<< 8 ^^^ b.toNat) % 2 ^ poly.toNat.log2 ^^^ r := by
+    rw [UInt64.toNat_xor, hX, hre]
+    conv => lhs; lhs; rw [hsplit]
+    rw [xor_xor_xor_cancel]
+  rw [← UInt64.toNat_inj, hval]
+  symm
+  apply modulo_unique hp
+  · rw [hX]
+    conv => rhs; rw [hsplit, Nat.xor_comm]
+    exact (Cong.refl _ _).xor hrc
+  · exact Nat.xor_lt_two_pow hlo' hr
+
+end
+
 end Rustic.Rabin
